@@ -123,6 +123,11 @@ func (s *Sched) settle() {
 		groups := map[string][]*newcomer{}
 		for _, n := range s.newcome {
 			pn, ok := s.names[n.parent]
+			if ok && strings.HasPrefix(pn, "@") {
+				// started by the harness itself during the setup (a client's notification loop): a background
+				// activity of its own, gated like every other (only the "@" goroutines themselves are exempt)
+				pn = "bg"
+			}
 			if !ok {
 				if n.parent == 0 {
 					pn = "root"
